@@ -244,6 +244,7 @@ class Evaluator:
         self.events = []         # (kind, value, node, Func)
         self.depth = 0
         self.approx = 0
+        self.trace = []          # Func objects entered (helpers, constructors, visit methods), in order
         self.hooks = hooks or {}
         self.INS = Sentinel("ins")
         self.VISITOR = Sentinel("visitor")
@@ -279,6 +280,8 @@ class Evaluator:
     def call_func(self, func: Func, args, kwargs=None, self_obj=None, cls_ctx=None):
         kwargs = dict(kwargs or {})
         self.depth += 1
+        if func not in self.trace:
+            self.trace.append(func)
         if self.depth > MAX_DEPTH:
             raise AnalysisError("evaluation depth exceeded in %s" % func.qualname)
         try:
@@ -363,7 +366,7 @@ class Evaluator:
             if s.value is not None:
                 self.assign(s.target, self.eval(s.value, fr), fr)
         elif isinstance(s, ast.AugAssign):
-            cur = self.eval(_load(s.target), fr)
+            cur = self.eval(s.target, fr)  # the e_* methods ignore ctx
             v = self.binop(s.op, cur, self.eval(s.value, fr))
             self.assign(s.target, v, fr)
         elif isinstance(s, ast.Return):
@@ -946,15 +949,6 @@ class Evaluator:
 class _StarInexact:
     def __init__(self, lst):
         self.lst = lst
-
-
-def _load(t):
-    import copy
-    t2 = copy.deepcopy(t)
-    for n in ast.walk(t2):
-        if hasattr(n, "ctx"):
-            n.ctx = ast.Load()
-    return t2
 
 
 def _names(t):
